@@ -355,5 +355,11 @@ def rule_g(ctx):
     rep.require('C09.g', 'dereferences of the optional channel subscription', n, 4)
 
 
+def rule_order(ctx):
+    # per-stream FIFO on the wire: a terminal/control frame must not overtake fragments of its own stream
+    from .c05 import rule_a as c05a
+    c05a(ctx)
+
+
 RULES = [('C09.a', rule_a), ('C09.b', rule_b), ('C09.c', rule_c), ('C09.d', rule_d), ('C09.e', rule_e),
-         ('C09.f', c07b), ('C09.g', rule_g)]
+         ('C09.f', c07b), ('C09.g', rule_g), ('C05.a', rule_order)]
